@@ -1,6 +1,7 @@
 import FqModel.Container
 import Proofs.C15Crc
 import Proofs.C15Struct
+import Proofs.C15CrcTable
 /-!
   C15 — container decoders report what independent writers stored: property theorems.
 
@@ -70,6 +71,44 @@ theorem gen_write_matches_model (tbl : Array Nat) (cur : Nat) (b : UInt8) :
       rcases Array.getElem?_eq_some_iff.mp h with ⟨hlt, _⟩; exact hlt
     rcases Array.getElem?_eq_some_iff.mp h with ⟨_, he⟩
     simp [crcWriteByte, Gen.Crc.write32, h, getElem!_pos, hi, he]
+
+/-- fq's table driven step over the regenerated table = eight bit-by-bit steps (msb first, polynomial
+    0x04C11DB7) of the state xor the byte, for EVERY 32 bit state and byte; never the index panic -/
+theorem fqcrc32_step_eq_bitwise (cur : Nat) (hc : cur < 2 ^ 32) (b : UInt8) :
+    crcWriteByte 32 Gen.Crc.Poly04c11db7Table cur b = .ok (crcMsbStep 0x04C11DB7 32 cur b) := by
+  have hb : b.toNat < 2 ^ 8 := b.toNat_lt
+  have hidx : (cur >>> 24) ^^^ b.toNat < 256 :=
+    Nat.xor_lt_two_pow (n := 8) (by rw [Nat.shiftRight_eq_div_pow]; omega) hb
+  obtain ⟨hsz, htab⟩ := crc32_table_ok
+  have hlt : (cur >>> 24) ^^^ b.toNat < Gen.Crc.Poly04c11db7Table.size := by rw [hsz]; exact hidx
+  have hget : Gen.Crc.Poly04c11db7Table[(cur >>> 24) ^^^ b.toNat]? = some (makeTableEntry 0x04c11db7 32 ((cur >>> 24) ^^^ b.toNat)) := by
+    rw [Array.getElem?_eq_getElem hlt, ← htab _ hidx, getElem!_pos Gen.Crc.Poly04c11db7Table _ hlt]
+  simp only [crcWriteByte, hget]
+  rw [write32_eq_bitwise cur hc b _ rfl]
+
+/-- … hence for every byte string: `checksum.CRC{Bits: 32, Table: Poly04c11db7Table}` computes the
+    bit-by-bit CRC (the one Ogg pages carry) and never panics, from any 32 bit start value -/
+theorem fqcrc32_eq_bitwise (bs : Bytes) : ∀ (cur : Nat), cur < 2 ^ 32 →
+    crcWrite 32 Gen.Crc.Poly04c11db7Table cur bs = .ok (crcMsb 0x04C11DB7 32 cur bs) := by
+  induction bs with
+  | nil => intro cur _; rfl
+  | cons b bs ih =>
+    intro cur hc
+    simp only [crcWrite, fqcrc32_step_eq_bitwise cur hc b, crcMsb, List.foldl_cons]
+    exact ih _ (crcMsbStep_lt cur hc b)
+
+/-- fq's own 32 bit CRC (Ogg pages): two inputs of the same length that differ in exactly one byte get different
+    checksums, from any 32 bit start value -/
+theorem fqcrc32_detects_byte (init : Nat) (hinit : init < 2 ^ 32) (a a' : Bytes) (i : Nat) (hlen : a.length = a'.length)
+    (hi : i < a.length) (hne : a[i] ≠ a'[i]'(hlen ▸ hi))
+    (hrest : ∀ j (hj : j < a.length), j ≠ i → a[j] = a'[j]'(hlen ▸ hj)) :
+    crcWrite 32 Gen.Crc.Poly04c11db7Table init a ≠ crcWrite 32 Gen.Crc.Poly04c11db7Table init a' := by
+  obtain ⟨p, q, h1, h2⟩ := split_at_diff a a' i hlen hi hrest
+  rw [fqcrc32_eq_bitwise a init hinit, fqcrc32_eq_bitwise a' init hinit]
+  intro h
+  injection h with h
+  rw [h1, h2] at h
+  exact crcMsb_ne_of_byte init hinit p q hne h
 
 /-! ## every single altered byte changes the CRC-32 / Adler-32 -/
 
